@@ -5,7 +5,7 @@ from common import *
 import procgen as pg
 
 PROP_MODULES = ["HvsrVerif.Props.C01", "HvsrVerif.Props.C01Laws", "HvsrVerif.Props.C01Methods"]
-BRIDGE_MODULES = ["HvsrVerif.Bridge.C01"]
+BRIDGE_MODULES = ["HvsrVerif.Bridge.C01", "HvsrVerif.Bridge.PyCombine", "HvsrVerif.Bridge.PyAzimuth"]
 
 
 def gen_case(rng, i):
